@@ -380,7 +380,10 @@ def h20_endpoint_bytes(S):
     from repid.health_check_server import HealthCheckServerSettings
 
     endpoint = ["/healthz", "/état", "/здоровье", "/health-✓"][S.pick("endpoint", 4)]     # (no spaces: a request line has none inside its target)
+    address = ["127.0.0.1", "::1", "::", "0.0.0.0"][S.pick("address", 4)]
+    bare = S.flag("request_without_header_fields")          # "GET /x HTTP/1.0" and an empty line: complete HTTP/1.0, what simple probes send
     S.tag("endpoint", endpoint)
+    S.tag("address", address)
     out = {}
 
     async def main(loop):
@@ -394,11 +397,17 @@ def h20_endpoint_bytes(S):
 
         await Job("job", id_="m1", _connection=w.conn).enqueue()
         worker = Worker(routers=[r], handle_signals=[], _connection=w.conn, graceful_shutdown_time=1.0, messages_limit=1, run_health_check_server=True,
-                        health_check_server_settings=HealthCheckServerSettings(address="127.0.0.1", port=8099, endpoint_name=endpoint))
+                        health_check_server_settings=HealthCheckServerSettings(address=address, port=8099, endpoint_name=endpoint))
         task = asyncio.create_task(worker.run())
         await asyncio.sleep(Fraction(10, 1000))
+        if task.done():
+            out["own"] = out["other"] = f"worker stopped: {task.exception()!r}"
+            return
         srv = loop.servers[0]
-        req = lambda path: [b"GET " + path.encode("utf-8") + b" HTTP/1.1\r\nHost: localhost\r\n\r\n"]
+        if bare:
+            req = lambda path: [b"GET " + path.encode("utf-8") + b" HTTP/1.0\r\n\r\n"]
+        else:
+            req = lambda path: [b"GET " + path.encode("utf-8") + b" HTTP/1.1\r\nHost: localhost\r\n\r\n"]
         out["own"] = _probe(srv, req(endpoint))
         out["other"] = _probe(srv, req(endpoint + "x"))
         await task
@@ -552,7 +561,7 @@ HARNESSES = [
                        "connections/rabbitmq/utils.py:_Consumers.pop", "_runner.py:_Runner.run_one_queue"],
             covers=["server-side-cancel"], stubs=["fake AMQP server: Basic.Cancel from the server, basic.consume on a missing queue fails like RabbitMQ (404 NOT_FOUND)"]),
     Harness(name="H20-endpoint-bytes", scenario=h20_endpoint_bytes,
-            bounds={"endpoint setting": "four concrete values, three of them outside ASCII", "request": "the endpoint in UTF-8 bytes; the endpoint plus one character"},
+            bounds={"endpoint setting": "four concrete values, three of them outside ASCII", "address setting": "127.0.0.1, ::1, ::, 0.0.0.0", "request": "with a Host header, or the request line alone", "request": "the endpoint in UTF-8 bytes; the endpoint plus one character"},
             functions=["health_check_server.py:_HttpServerProtocol.data_received"], covers=["endpoint-bytes"],
             stubs=["captured protocol factory; here the bytes are real (the strx parse harnesses treat bytes.decode as a stub)"]),
     Harness(name="H20-lifetime", scenario=h20_lifetime, workers=8,
